@@ -367,7 +367,8 @@ class Interp:
             if n in st.env:
                 return [(st, st.env[n])]
             if n == "self":
-                return [(st, {"v": "self"})]
+                fn0 = st.env.get("__fn")
+                return [(st, {"v": "self", "ty": norm_ty(fn0.impl["self_ty"]) if fn0 is not None and getattr(fn0, "impl", None) is not None else None})]
             if n == "None":
                 return [(st, {"v": "none"})]
             # a free function of the crate?
@@ -2875,6 +2876,42 @@ def scheme_tokens(text):
 
 # ------------------------------------------------------------------ taint
 TAINT_TYPES = ("String", "str", "&str", "char", "S", "&String", "Option<char>")
+TAINT_CARRIERS = set()  # names of the crate's types that (transitively) hold user text: set_taint_carriers(facts)
+
+
+def set_taint_carriers(facts):
+    """Types of the crate with a String / char / str field, directly or through other such types: a value of such a type that
+    reaches the emitted text through a construct the interpreter did not look into may carry user text."""
+    carr = set()
+    changed = True
+
+    def carries(ty):
+        t = norm_ty(ty or "")
+        if re.search(r"\b(String|str|char|OsString|PathBuf|Cow)\b", t):
+            return True
+        return any(re.search(r"\b%s\b" % re.escape(c_), t) for c_ in carr)
+
+    while changed:
+        changed = False
+        for name, en in facts.enums.items():
+            if "::" in name or name in carr:
+                continue
+            if any(carries(f_["ty"]) for v_ in en.get("variants", []) for f_ in v_.get("fields", [])):
+                carr.add(name)
+                changed = True
+        for name, sd in facts.structs.items():
+            if "::" in name or name in carr:
+                continue
+            if any(carries(f_["ty"]) for f_ in sd.get("fields", [])):
+                carr.add(name)
+                changed = True
+        for name, al in facts.types.items():
+            if name not in carr and carries(al.get("ty")):
+                carr.add(name)
+                changed = True
+    TAINT_CARRIERS.clear()
+    TAINT_CARRIERS.update(carr)
+    return carr
 
 
 def tainted(h, depth=0):
@@ -2883,7 +2920,12 @@ def tainted(h, depth=0):
     if not isinstance(h, dict) or depth > 12:
         return []
     v = h.get("v")
-    if v in ("int", "bool", "affine", "none", "unit", "self", "fn"):
+    if v == "self":
+        ty_ = h.get("ty") or ""
+        if ty_ and (ty_ in TAINT_TYPES or (TAINT_CARRIERS and any(re.search(r"\b%s\b" % re.escape(c_), ty_) for c_ in TAINT_CARRIERS))):
+            return ["self"]
+        return []
+    if v in ("int", "bool", "affine", "none", "unit", "fn"):
         return []
     if v == "char":
         return []
@@ -2907,6 +2949,9 @@ def tainted(h, depth=0):
         if ty in TAINT_TYPES or ty.startswith("&str") or ty == "&'a str":
             return [canon(h)]
         if k == "param" and ("AsRef<str>" in ty or ty in ("S", "&S")):
+            return [canon(h)]
+        if TAINT_CARRIERS and any(re.search(r"\b%s\b" % re.escape(c_), ty) for c_ in TAINT_CARRIERS):
+            # a structured value holding user text (a format element list, an action, …) used as a whole
             return [canon(h)]
         return []
     if k == "contains_any":
